@@ -18,11 +18,13 @@ def oracle(case) -> Info:
     prelude = case[6] if len(case) > 6 else "none"
     run_prelude(prelude)
     body, exp, is_ct = C.kamstrup_body(list_ver, items, pads)
+    C.scribble(guarded(kamstrup.decode_notification_body, body, what="kamstrup.decode_notification_body"))  # a first result, modified by the caller
     d_body = guarded(kamstrup.decode_notification_body, body, what="kamstrup.decode_notification_body")
     m = C.dict_mismatch(d_body, exp)
     if m:
         fail(f"decode_notification_body ({layout}, CT={is_ct}): {m}; body {body.hex()[:700]}", sig=("ct:" if is_ct else "") + "body:" + m.split(":")[0][:40])
     frame = C.llc_apdu(body, apdu_dt, tagged, invoke=0)
+    C.scribble(guarded(kamstrup.decode_frame_content, frame, what="kamstrup.decode_frame_content"))
     d_frame = guarded(kamstrup.decode_frame_content, frame, what="kamstrup.decode_frame_content")
     exp_frame = dict(exp)
     exp_frame["meter_datetime"] = C.dt_expected(apdu_dt)  # for frames the meter clock is the APDU date-time
@@ -49,6 +51,7 @@ def build() -> Check:
             "element. Non-trivial = >=1 non-zero current and (>=1 non-zero energy or a 10-second list). CT and non-CT classes are counted."
         ),
         assumptions=[
+            "Every payload is decoded twice; the caller modifies the first returned dictionary before the second call (results must not be shared objects).",
             "Before each decode a drawn prelude lets another decoder (or all) process genuine messages in the same process: decoders must not depend on what was decoded before.","Currents are compared with a relative tolerance of 4*2^-53; factor-of-ten errors are 15 orders of magnitude outside it.", "Only the documented OBIS codes are sent (the decoder maps unknown codes through a table lookup; that is C15's subject)."],
         clauses=[HypClause("lists", st.tuples(C.kamstrup_list_st(), st.sampled_from(PRELUDES)).map(lambda t: tuple(t[0]) + (t[1],)), oracle, quick=6000, thorough=300000)],
     )
